@@ -321,6 +321,45 @@ def special_definitions(ctx, rng):
                                "interpreted": repr(res[1])[:500], "workload": "special-definitions"})
             else:
                 ctx.event("special_definitions_checked")
+    # the configuration flag #[nocompile] in front of a structure: that structure (and its inline members) is read by the
+    # interpreted reader, the ones around it are compiled as requested, and everybody parses what the same text without
+    # the flag parses
+    flagged = ("struct first { uint8 a; uint16 b[2]; };\n{F1}struct second { uint8 n; char s[n & 3]; struct { uint16 x; uint8 y : 3; uint8 z : 5; } in; uint32 t; };\n"
+               "struct third { second s; uint8 k; first f; };\n{F2}typedef struct { uint8 q; third th[1]; } fourth;\nstruct fifth { uint8 e; };")
+    for endian in "<>":
+        for align in (False, True):
+            for f1, f2 in (("#[nocompile]\n", ""), ("", "#[nocompile]\n"), ("#[nocompile]\n", " #[nocompile] "), ("#[ nocompile ]\n", "")):
+                text = flagged.replace("{F1}", f1).replace("{F2}", f2)
+                plain = flagged.replace("{F1}", "").replace("{F2}", "")
+                data = bytes(rng.randrange(1, 250) for _ in range(64))
+                names = ("first", "second", "third", "fourth", "fifth")
+                ctx.evaluation(("nocompile-flag", endian, align, f1, f2))
+                ctx.cell("special:nocompile-flag")
+                try:
+                    res = []
+                    for t_, compiled in ((text, True), (plain, True), (plain, False)):
+                        cs = lib.load(t_, endian, align, compiled)
+                        res.append(([bool(getattr(cs, n).__compiled__) for n in names],
+                                    [(getattr(cs, n).size, outcome(getattr(cs, n), data), outcome(getattr(cs, n), data[:3])) for n in names]))
+                    stripped = "[ " not in f1   # (blanks inside the brackets are part of the flag's text: only the values are judged then)
+                    want_flags = [True, not (f1 and stripped), True, not f2, True]
+                    problems = []
+                    if res[0][1] != res[1][1] or res[0][1] != res[2][1]:
+                        problems.append("values")
+                    if res[1][0] != [True] * 5 or res[2][0] != [False] * 5:
+                        problems.append("unflagged-compiled-flags")
+                    if stripped and res[0][0] != want_flags:
+                        problems.append("flagged-compiled-flags")
+                except Exception as e:  # noqa: BLE001
+                    ctx.violation("special", f"nocompile-flag:raises:{type(e).__name__}", {"text": text, "endian": endian, "align": align,
+                                                                                        "error": lib.exc_sig(e), "workload": "special-definitions"})
+                    continue
+                if problems:
+                    ctx.violation("special", "nocompile-flag:" + "+".join(problems),
+                                  {"text": text, "endian": endian, "align": align, "flags": repr([r[0] for r in res]),
+                                   "flagged": repr(res[0][1])[:400], "interpreted": repr(res[2][1])[:400], "workload": "special-definitions"})
+                else:
+                    ctx.event("special_definitions_checked")
     # pointer types that are signed or not struct-packed: whatever a pointer's value is then, it is the same one in
     # both readers (scalars, fixed and null-terminated arrays, behind a dynamic field)
     ptext = "struct T { uint8 lead; uint16 *p; uint8 x; uint16 *q[2]; uint8 n; char s[n & 3]; uint16 *r; uint16 *z[]; uint8 t; };"
